@@ -77,6 +77,8 @@ type stimObs struct {
 	nEst      int
 	nClose    int
 	w         *world.World
+	secondUp  bool
+	secondRx  []wire.Msg
 }
 
 func runStim(cs stimCase, trace bool) (*stimObs, *vrt.Exec) {
@@ -90,7 +92,8 @@ func runStim(cs stimCase, trace bool) (*stimObs, *vrt.Exec) {
 	mkNotif := func() *corebgp.Notification {
 		return &corebgp.Notification{Code: plugN[0], Subcode: plugN[1], Data: append([]byte(nil), plugN[2:]...)}
 	}
-	s := &Sess{LocalAS: 65001, RemoteAS: 65002, Hold: -1, Inbound: cs.Inbound, Horizon: 20 * time.Second,
+	conns := 0
+	s := &Sess{LocalAS: 65001, RemoteAS: 65002, Hold: -1, Inbound: cs.Inbound, Horizon: 20 * time.Second, Reconnect: cs.Expect == "second-connection",
 		Plugin: func(w *world.World) *world.Plugin {
 			p := &world.Plugin{W: w, Peer: "P1", Marker: true, NoYield: true}
 			if cs.PlugAt == "open" {
@@ -103,6 +106,13 @@ func runStim(cs stimCase, trace bool) (*stimObs, *vrt.Exec) {
 		},
 		Script: func(w *world.World, r *world.Remote) {
 			st := cs.State
+			conns++
+			if cs.Expect == "second-connection" && conns == 2 {
+				// the second connection of the peer: a clean handshake must work
+				o.secondUp = reach(r, stEstablished, 65002, 90)
+				o.secondRx = append([]wire.Msg{}, r.Rx...)
+				return
+			}
 			if cs.PlugAt == "open" {
 				// reach OpenSent, send a valid OPEN, the plugin refuses it
 				if !reach(r, stOpenSent, 65002, 90) {
@@ -246,23 +256,46 @@ func judgeStim(prop string, cs stimCase, o *stimObs, e *vrt.Exec) (rule, msg str
 				return "delivery-differs", fmt.Sprintf("delivery %d is %x, sent %x", i, o.delivered[i], b)
 			}
 		}
-		if cs.Post != "" && cs.Expect != "progress" {
+		if cs.Post != "" && cs.Expect != "progress" && cs.Expect != "framing" {
 			pb, _ := hex.DecodeString(cs.Post)
 			if len(pb) > wire.HeaderLen && hasDelivered(o, pb[wire.HeaderLen:]) {
 				return "interpreted-after-fault", "the message following the fault was delivered to the handler"
 			}
 		}
-		if cs.Expect != "progress" && cs.Kind != "length-sweep" && len(o.delivered) > len(want) {
+		if cs.Expect != "progress" && cs.Expect != "framing" && cs.Expect != "second-connection" && cs.Kind != "length-sweep" && len(o.delivered) > len(want) {
 			return "interpreted-after-fault", fmt.Sprintf("%d deliveries, only %d expected", len(o.delivered), len(want))
 		}
 		// OnClose exactly once for the Established session (after shutdown)
-		if o.nEst != 1 || o.nClose != 1 {
+		if cs.Expect == "second-connection" {
+			// two sessions
+		} else if o.nEst != 1 || o.nClose != 1 {
 			return "onclose-count", fmt.Sprintf("OnEstablished=%d OnClose=%d for one Established session", o.nEst, o.nClose)
 		}
-	} else if o.nEst != 0 && cs.Expect != "progress" {
+	} else if o.nEst != 0 && cs.Expect != "progress" && cs.Expect != "framing" {
 		return "unexpected-established", "session reported Established"
 	}
 	switch cs.Expect {
+	case "second-connection":
+		if !o.secondUp {
+			return "second-connection-misframed", fmt.Sprintf("after a session that ended with bytes behind its last message, a clean handshake on the next connection failed: corebgp sent %v", o.secondRx)
+		}
+		return "", ""
+	case "framing":
+		if hasDelivered(o, []byte("PHANTOM")) {
+			return "body-interpreted-as-message", "the body of a KEEPALIVE-typed message was interpreted as a message of its own"
+		}
+		if len(notifs) == 0 {
+			if cs.State == stEstablished && !hasDelivered(o, []byte("REAL")) {
+				return "message-after-keepalive-lost", "the UPDATE following an accepted KEEPALIVE-typed message with a body was not delivered"
+			}
+			return "", ""
+		}
+		c, s, _ := notifs[0].Notif()
+		if c == 1 && s == 2 || cs.State == stOpenConfirm && c == 5 {
+			// refused for its length, or (OpenConfirm) the following UPDATE was an FSM error: framing intact
+			return "", ""
+		}
+		return fmt.Sprintf("misframed(%d,%d)", c, s), fmt.Sprintf("a KEEPALIVE-typed message of length %d followed by a well-formed UPDATE was answered with NOTIFICATION (%d,%d): the stream was not delimited by the length field", len(cs.Stimulus)/2, c, s)
 	case "notif":
 		if len(notifs) != 1 {
 			return "notification-count", fmt.Sprintf("expected exactly one NOTIFICATION, got %v (others %v)", notifs, others)
@@ -511,6 +544,27 @@ func c08Check(c *harness.Ctx) {
 			}
 		}
 	}
+	// a KEEPALIVE-typed message with a body: whether it is accepted or refused with Bad Message
+	// Length is not judged, but the next message starts where the length field says
+	phantom := wire.Update([]byte("PHANTOM"))
+	for _, body := range [][]byte{phantom, {0}, bytes.Repeat([]byte{0}, 23), bytes.Repeat([]byte{0xff}, 19), append(append([]byte{}, phantom...), phantom...), bytes.Repeat([]byte{0xff}, 4077)} {
+		for _, st := range []int{stOpenConfirm, stEstablished} {
+			for _, inbound := range []bool{true, false} {
+				ka := append(wire.RawHeader(wire.GoodMarker, uint16(19+len(body)), wire.TypeKeepalive), body...)
+				cs := stimCase{Kind: "keepalive-with-body", State: st, Inbound: inbound, Stimulus: hex.EncodeToString(ka), Post: hex.EncodeToString(wire.Update([]byte("REAL"))), Expect: "framing"}
+				if !run(cs, true) {
+					return
+				}
+			}
+		}
+	}
+	// bytes received behind a session-ending message must not leak into the next connection of the peer
+	for _, tail := range [][]byte{wire.Keepalive(), append(wire.Keepalive(), 1, 2, 3, 4, 5), wire.Keepalive()[:9], append(wire.Keepalive(), wire.RawHeader(wire.GoodMarker, 19, 9)...)} {
+		cs := stimCase{Kind: "leftover-bytes", State: stEstablished, Inbound: false, Stimulus: hex.EncodeToString(append(wire.Notification(6, 2, nil), tail...)), Expect: "second-connection"}
+		if !run(cs, true) {
+			return
+		}
+	}
 	// in-range UPDATE before the session is up: FSM error (C09) - only that it is not taken for a header error
 	// outgoing NOTIFICATION fidelity: plugin-returned notifications
 	var dls []int
@@ -549,6 +603,9 @@ func c08Check(c *harness.Ctx) {
 func c09Check(c *harness.Ctx) {
 	th := c.Thorough()
 	idx := 0
+	if !c09SecondSession(c, &idx) {
+		return
+	}
 	run := func(cs stimCase) bool {
 		idx++
 		if !c.Mine(idx) {
@@ -604,7 +661,7 @@ func c09Check(c *harness.Ctx) {
 			}
 			// received NOTIFICATIONs
 			subs := []byte{0, 1, 255}
-			dls := []int{0, 1, 2, 100}
+			dls := []int{0, 1, 2, 100, 4074, 4075}
 			if th {
 				subs = []byte{0, 1, 2, 3, 7, 11, 255}
 				dls = []int{0, 1, 2, 3, 100, 4075}
@@ -655,6 +712,68 @@ func c09Check(c *harness.Ctx) {
 			}
 		}
 	}
+}
+
+// c09SecondSession: the judged session is the second one on the same (dialling) FSM: it must
+// get its own OnClose whatever ended the first one.
+func c09SecondSession(c *harness.Ctx, idx *int) bool {
+	for _, firstEnd := range []string{"cease", "fin", "rst"} {
+		for _, secondEnd := range []string{"cease", "fin", "rst", "open", "close"} {
+			*idx++
+			if !c.Mine(*idx) {
+				continue
+			}
+			if c.Expired() {
+				return false
+			}
+			conns := 0
+			end := func(r *world.Remote, how string) {
+				switch how {
+				case "cease":
+					r.Send(wire.Notification(6, 2, nil))
+					r.Deadline(3 * time.Second)
+					r.Drain()
+				case "fin":
+					r.C.Close()
+				case "rst":
+					r.C.Reset()
+				case "open":
+					r.Send(wire.Open(65002, 90, 0x0a000002))
+					r.Deadline(3 * time.Second)
+					r.Drain()
+				case "close":
+					// the server's Close ends it
+				}
+			}
+			s := &Sess{LocalAS: 65001, RemoteAS: 65002, Hold: -1, Inbound: false, Horizon: 30 * time.Second, Reconnect: true,
+				Plugin: func(w *world.World) *world.Plugin {
+					return &world.Plugin{W: w, Peer: "P1", Marker: true, NoYield: true}
+				},
+				Script: func(w *world.World, r *world.Remote) {
+					conns++
+					if !reach(r, stEstablished, 65002, 90) {
+						return
+					}
+					if conns == 1 {
+						end(r, firstEnd)
+					} else {
+						end(r, secondEnd)
+					}
+				}}
+			w, e := s.Run(nil, false)
+			rule, msg := basicVerdict(e)
+			nEst, nClose := w.Count("OnEstablished", "enter", "P1"), w.Count("OnClose", "exit", "P1")
+			if rule == "" && (nEst != 2 || nClose != 2) {
+				rule, msg = "onclose-count", fmt.Sprintf("first session ended by %s, second by %s: OnEstablished fired %d times, OnClose %d times", firstEnd, secondEnd, nEst, nClose)
+			}
+			c.Eval([]byte("second-session/"+firstEnd+"/"+secondEnd), true)
+			if rule != "" {
+				c.Violation(rule, "C09:second-session:"+rule, msg, map[string]any{"second_session": []string{firstEnd, secondEnd}, "log": logText(w)})
+			}
+			e.Finish()
+		}
+	}
+	return true
 }
 
 func init() {
